@@ -159,7 +159,14 @@ def cross_case(chk, rng, w, wid, s1, s2):
     e, kind = enc_amount(rng, x, ("D", "F", "int"))
     steps = [{"id": "q", "k": "q", "e": Q(e, s1)},
              {"k": "r", "e": M(V("q"), "convert", U(s2))},
-             {"k": "ea", "e": M(V("q"), "equiv_amount", U(s2))}]
+             {"k": "ea", "e": M(V("q"), "equiv_amount", U(s2))},
+             # the converting forms of the constructor: amount-and-symbol
+             # text of one type with a unit of the other, through the generic
+             # factory and through the target unit's own type
+             {"k": "ps", "e": ["c", ["g", "quantity:Quantity"],
+                               [["s", "5 " + s1], U(s2)]]},
+             {"k": "pt", "e": ["c", ["a", U(s2), "qty_cls"],
+                               [["s", "5 " + s1], U(s2)]]}]
 
     def judge(obs, rec, case):
         if obs is None or "q" not in obs:
@@ -167,7 +174,7 @@ def cross_case(chk, rng, w, wid, s1, s2):
             return
         chk.case((wid, "cross", s1, s2), nontrivial=True)
         chk.count("cross-type rejections")
-        for k in ("r", "ea"):
+        for k in ("r", "ea", "ps", "pt"):
             if not is_exc(obs.get(k), "IncompatibleUnitsError"):
                 chk.violation(
                     "%s %s to unit %s of another type: expected "
@@ -268,7 +275,11 @@ def world_case(chk, rng, wi, nconv=30):
         e, _ = enc_amount(rng, rand_fraction(rng, small=True),
                           ("D", "F", "int"))
         st = [{"k": "x%d.r" % j, "e": M(Q(e, s1), "convert", U(s2))},
-              {"k": "x%d.ea" % j, "e": M(Q(e, s1), "equiv_amount", U(s2))}]
+              {"k": "x%d.ea" % j, "e": M(Q(e, s1), "equiv_amount", U(s2))},
+              {"k": "x%d.ps" % j, "e": ["c", ["g", "quantity:Quantity"],
+                                        [["s", "5 " + s1], U(s2)]]},
+              {"k": "x%d.pt" % j, "e": ["c", ["a", U(s2), "qty_cls"],
+                                        [["s", "5 " + s1], U(s2)]]}]
         steps.extend(st)
         cross.append((j, s1, s2, st, (a, b) in fam or (b, a) in fam))
     depth = _max_depth(plan)
@@ -293,7 +304,7 @@ def world_case(chk, rng, wi, nconv=30):
             if related:
                 chk.count("conversions between a subclass and its parent "
                           "type")
-            for k in ("r", "ea"):
+            for k in ("r", "ea", "ps", "pt"):
                 r = obs.get("x%d.%s" % (j, k))
                 if not is_exc(r, "IncompatibleUnitsError"):
                     chk.violation(
